@@ -29,14 +29,14 @@ pub fn new_env() -> Env {
 #[derive(Clone)]
 pub struct Inv {
     pub contract: Address,
-    pub func: &'static str,
+    pub func: String,
     pub args: SVec<Val>,
     pub subs: Vec<Inv>,
 }
 
 impl Inv {
-    pub fn new(contract: &Address, func: &'static str, args: SVec<Val>) -> Inv {
-        Inv { contract: contract.clone(), func, args, subs: vec![] }
+    pub fn new(contract: &Address, func: &str, args: SVec<Val>) -> Inv {
+        Inv { contract: contract.clone(), func: func.to_string(), args, subs: vec![] }
     }
     pub fn with(mut self, sub: Inv) -> Inv {
         self.subs.push(sub);
@@ -46,7 +46,7 @@ impl Inv {
         xdr::SorobanAuthorizedInvocation {
             function: xdr::SorobanAuthorizedFunction::ContractFn(xdr::InvokeContractArgs {
                 contract_address: xdr::ScAddress::try_from(&self.contract).unwrap(),
-                function_name: self.func.try_into().unwrap(),
+                function_name: self.func.as_str().try_into().unwrap(),
                 args: self.args.clone().try_into().unwrap(),
             }),
             sub_invocations: self
@@ -76,14 +76,33 @@ pub struct Ctx {
     ev_seen: u32,
     /// ledgers that close before every submitted call (0 = the binder controls the sequence itself).
     /// On chain every transaction lands in a later ledger; temporary entries live 16 ledgers at least, so
-    /// state that was (wrongly) put into temporary storage is gone a few calls later.  Capped well below the
-    /// 4096-ledger minimum lifetime of persistent and instance entries of the test host.
+    /// state that was (wrongly) put into temporary storage is gone a few calls later (see `new_aging`).
     pub ledger_step: u32,
+    /// `scopedAuth` / `dropArg` of the action being executed: these principals sign an entry that names the entry
+    /// point but OMITS argument `dropArg` (what `require_auth_for_args` with a subset of the arguments would ask
+    /// for) - it does not authorise the exact call
+    pub argdrop: Option<(Vec<String>, Option<usize>, Vec<usize>)>,
+    calls: u32,
 }
 
 impl Ctx {
     pub fn new() -> Ctx {
-        Ctx { env: new_env(), names: BTreeMap::new(), nonce: 1000, ev_seen: 0, ledger_step: 0 }
+        Ctx { env: new_env(), names: BTreeMap::new(), nonce: 1000, ev_seen: 0, ledger_step: 0, argdrop: None, calls: 0 }
+    }
+
+    /// A world in which time really passes: `step` ledgers close before every submitted call and every sixth call
+    /// comes after a long pause (about 70 days of ledgers).  Persistent and instance entries are given a minimum
+    /// lifetime far beyond any walk, so that only what a contract put into TEMPORARY storage (minimum lifetime 16
+    /// ledgers, or whatever the contract extends it to) can lapse.
+    pub fn new_aging(step: u32) -> Ctx {
+        let mut cx = Ctx::new();
+        cx.env.ledger().with_mut(|li| {
+            li.min_temp_entry_ttl = 16;
+            li.min_persistent_entry_ttl = 500_000_000;
+            li.max_entry_ttl = 1_000_000_000;
+        });
+        cx.ledger_step = step;
+        cx
     }
 
     /// Address of a named principal (plain generated address unless registered otherwise).
@@ -154,13 +173,49 @@ impl Ctx {
         args: SVec<Val>,
     ) -> Result<Val, String> {
         if self.ledger_step > 0 {
+            self.calls += 1;
             let cur = self.env.ledger().sequence();
-            if cur + self.ledger_step <= 3500 {
-                self.env.ledger().set_sequence_number(cur + self.ledger_step);
+            let by = if self.calls % 6 == 0 { 1_200_000 } else { self.ledger_step };
+            if cur + by <= 400_000_000 {
+                self.env.ledger().set_sequence_number(cur + by);
             }
         }
-        self.install_auths(auths);
+        let mut all: Vec<(Address, Inv)> = auths.to_vec();
+        if let Some((names, drop, keep)) = self.argdrop.take() {
+            let mut fewer: SVec<Val> = SVec::new(&self.env);
+            match drop {
+                Some(k) => {
+                    for (i, v) in args.iter().enumerate() {
+                        if i != k {
+                            fewer.push_back(v);
+                        }
+                    }
+                }
+                None => {
+                    for i in keep.iter() {
+                        if let Some(v) = args.get(*i as u32) {
+                            fewer.push_back(v);
+                        }
+                    }
+                }
+            }
+            for n in names {
+                let a = self.addr(&n);
+                all.push((a, Inv::new(contract, func, fewer.clone())));
+            }
+        }
+        self.install_auths(&all);
         self.call(contract, func, args)
+    }
+
+    /// reads `scopedAuth` / `dropArg` of an action (see `argdrop`); consumed by the next `call_auth`
+    pub fn set_argdrop(&mut self, act: &J) {
+        let names: Option<Vec<String>> = act.get("scopedAuth").and_then(|x| x.as_array()).map(|n| n.iter().map(|x| x.as_str().unwrap().to_string()).collect());
+        self.argdrop = match (names, act.get("dropArg").and_then(|x| x.as_u64()), act.get("keepArgs").and_then(|x| x.as_array())) {
+            (Some(n), Some(k), _) => Some((n, Some(k as usize), vec![])),
+            (Some(n), None, Some(keep)) => Some((n, None, keep.iter().map(|x| x.as_u64().unwrap() as usize).collect())),
+            _ => None,
+        };
     }
 
     /// Read-only query helper: panics never escape (Err on failure).
